@@ -4,8 +4,11 @@ derived from the other names) against the same program with plain names."""
 
 TEMPLATE_SRC = """struct {S} {{ {fa}: int32, {fb}: int32 }}
 enum {E} {{ {Va}, {Vb}(int32) }}
-trait {Tr} {{ fn {m}(Self, int32) -> int32; }}
-impl {Tr} for {S} {{ fn {m}(self: {S}, k: int32) -> int32 {{ self.{fa} + k }} }}
+trait {Tr} {{ fn {m}(Self, int32) -> int32; fn pre_{m}(Self, int32) -> int32; }}
+impl {Tr} for {S} {{
+    fn pre_{m}(self: {S}, k: int32) -> int32 {{ self.{fb} * 100 + k }}
+    fn {m}(self: {S}, k: int32) -> int32 {{ self.{fa} + k }}
+}}
 impl {S} {{ fn {im}(self: {S}) -> int32 {{ self.{fb} * 2 }} }}
 fn {f}({p}: int32, {q}: int32) -> int32 {{ let {v} = {p} * 10; let {w} = {v} + {q}; {w} }}
 fn {g}({p}: {E}) -> int32 {{ match {p} {{ {Va} => 1, {Vb}({v}) => {v} + {f}({v}, 2) }} }}
@@ -20,6 +23,7 @@ fn main() {{
     let {w} = (1, {v});
     let d: dyn {Tr} = {v};
     let _ = string_println(int32_to_string({Tr}::{m}(d, 1)));
+    let _ = string_println(int32_to_string({Tr}::pre_{m}(d, 1)));
     let _ = string_println(int32_to_string({w}.0));
 %(extra)s    string_println(int32_to_string({c}(9)))
 }}
